@@ -1,6 +1,7 @@
 package props
 
 import (
+	"bytes"
 	"encoding/hex"
 	"fmt"
 	mrand "math/rand"
@@ -636,6 +637,59 @@ func c04(x *mon.Ctx) {
 			}
 		}
 		x.Require("level-dates", n/7, n*6/7, n)
+	}
+	// ---- the levels that count are those of the document at hand: a TCB Info that must be refused (its matching level OutOfDate,
+	//      no matching level, the module's level Revoked) arrives after a response that carried ITS signature string next to the
+	//      acceptable document's member, and the acceptable one after the converse (see C03 same-signature-string-seen-before)
+	{
+		n := 0
+		for wi := 0; wi < x.Pick(3, 10); wi++ {
+			r := x.Rand(fmt.Sprint("levels-of-the-document-at-hand", wi))
+			p := world.RandPlatform(r)
+			for i := range p.Comp {
+				p.Comp[i], p.TeeTcb[i] = byte(1+r.Intn(200)), byte(1+r.Intn(200))
+			}
+			p.TeeTcb[1] = byte(wi % 3)
+			good := world.Honest(r, world.HonestOpts{Shape: world.QuoteShape{AuthLen: 32}, Platform: p})
+			good.Resign()
+			bad := good.Clone()
+			kind := []string{"matching-level-outofdate", "no-level-matches", "module-level-revoked"}[wi%3]
+			switch kind {
+			case "matching-level-outofdate":
+				bad.Tcb.Levels[0].Status = "OutOfDate"
+			case "no-level-matches":
+				bad.Tcb.Levels[0].Sgx[5]++
+			default:
+				if len(bad.Tcb.Mods) == 0 {
+					bad.Tcb.Levels[0].Status = "Revoked"
+				} else {
+					bad.Tcb.Mods[0].Levels[0].Status = "Revoked"
+				}
+			}
+			bad.Resign()
+			sigOf := func(body []byte) string {
+				i := bytes.LastIndex(body, []byte(`"signature":"`)) + len(`"signature":"`)
+				return string(body[i : len(body)-2])
+			}
+			for _, st := range []struct {
+				name, expect string
+				body         []byte
+			}{
+				{"acceptable-member-under-the-refusable-documents-signature", "reject", world.BodyWithSig("tcbInfo", good.Tcb.JSON(), sigOf(bad.TcbBody))},
+				{"the-refusable-document", "reject", bad.TcbBody},
+				{"refusable-member-under-the-acceptable-documents-signature", "reject", world.BodyWithSig("tcbInfo", bad.Tcb.JSON(), sigOf(good.TcbBody))},
+				{"the-acceptable-document", "accept", good.TcbBody},
+				{"the-refusable-document-again", "reject", bad.TcbBody},
+			} {
+				w := good.Clone()
+				w.TcbBody = st.body
+				c := w.Case(world.LColl, "levels-of-the-document-at-hand", fmt.Sprintf("w%d/%s/%s", wi, kind, st.name))
+				c.Expect, c.ShadowSkip = st.expect, true
+				check(x, n, c)
+				n++
+			}
+		}
+		x.Require("levels-of-the-document-at-hand", n/5, n*4/5, n)
 	}
 	// ---- a PCK certificate whose SVNs are NEGATIVE DER integers (02 01 C8 is -56, not 200; 02 02 FF 38 is -200): such a
 	//      platform meets no level — the certificate is malformed — whatever the levels ask for
